@@ -72,16 +72,17 @@ theorem phragmen_irresolute (C : Phragmen.Ctx) (projects init : List Pid) (loads
     ∀ W ∈ Ws, ValidOutcome (Phragmen.instOf C projects) init W :=
   Phragmen.runAll_valid C projects init loads hinit hsub hcost _ (fun T l hl => (tie_order_ok t C.cost score T l hl).2.1) Ws h
 
-/-! ### Welfare maximiser, primal/dual path (always returns; any enumeration order of the instance) -/
+/-! ### Welfare maximiser, primal/dual path (always returns; any enumeration order of the instance; any real
+    profits — total satisfactions may be negative) -/
 
 theorem maxwelfare_primalDual (I : Inst) (profit : Pid → Rat) (init enum : List Pid)
-    (hcost : ∀ p ∈ I.projects, 0 ≤ I.cost p) (hprofit : ∀ p ∈ I.projects, 0 ≤ profit p)
+    (hcost : ∀ p ∈ I.projects, 0 ≤ I.cost p)
     (hinit : I.isFeasible init = true) (hperm : enum.Perm I.projects) (hnd : enum.Nodup) (hinitnd : init.Nodup) :
     (MaxWelfare.primalDual I profit init enum).Nodup ∧ init <+: MaxWelfare.primalDual I profit init enum ∧
       I.isFeasible (MaxWelfare.primalDual I profit init enum) = true :=
-  ⟨MaxWelfare.primalDual_nodup I profit init enum hcost hprofit hinit hperm hnd hinitnd,
+  ⟨MaxWelfare.primalDual_nodup I profit init enum hcost hinit hperm hnd hinitnd,
    MaxWelfare.primalDual_contains_init I profit init enum,
-   MaxWelfare.primalDual_feasible I profit init enum hcost hprofit hinit hperm hnd⟩
+   MaxWelfare.primalDual_feasible I profit init enum hcost hinit hperm hnd⟩
 
 /-! ### The hypotheses are satisfiable -/
 
